@@ -267,6 +267,9 @@ func (db *dispatchBuilder) Block2(tp px.Type) {
 	if db.blockType != nil {
 		panic(`Block specified more than once`)
 	}
+	if db.function != nil {
+		panic(`Dispatch function does not take a block. Use FunctionWithBlock`)
+	}
 	db.blockType = tp
 }
 
@@ -291,7 +294,7 @@ func (db *dispatchBuilder) Returns2(tp px.Type) {
 }
 
 func (db *dispatchBuilder) Function(df px.DispatchFunction) {
-	if _, ok := db.blockType.(*types.CallableType); ok {
+	if db.blockType != nil {
 		panic(`Dispatch requires a block. Use FunctionWithBlock`)
 	}
 	db.function = df
